@@ -71,6 +71,22 @@ CLAIMED = {
    note="One deviation of the unchanged code is recorded as known finding F17-stale-state and reported as such; errors are accepted whenever the store is failing.",
    technique="TLA+ spec (property oracle + implementation-shaped model) checked by TLC; trace validation incl. scheduled concurrent readers",
    design="4/C10"),
+ "C11": dict(
+   text="StoreChain.tla is an executable reference model of the documented routing / caching / repair / failover policy; TLC checks over every "
+        "chain shape on three members and every content and health pattern that the model has the documented properties. Random chains of the real "
+        "wrappers over fault-injecting members (in-memory and real LocalStores with corrupted files) run random histories; result class, members "
+        "called and member contents after every operation are compared with the model. Swap under load and concurrent failover run under the gate scheduler.",
+   note="Failover-group members are assumed to hold the same chunks (documented precondition). Chains built from CLI location strings are covered through the wrapper constructors they call.",
+   technique="TLA+ reference model checked by TLC; trace validation of random histories; scheduled concurrent scenarios",
+   design="4/C11"),
+ "C03": dict(
+   text="NoBadDelivery is an invariant of the store-chain reference model (TLC, all small chains) and Stores.tla states the delivery rule per corruption "
+        "class. Nine corruption classes of the stored object are applied behind real backends (LocalStore, RemoteHTTP + real handler, casync protocol "
+        "with the real server and a raw peer), with verification on/off, through every wrapper, read twice, before or after an intact read; consumers "
+        "(AssembleFile, IndexPos, SparseFile) run over the poisoned store; every record is judged by the specification.",
+   note="S3/SFTP/GCS backends are not exercised offline; zstd and SHA are executed leaves.",
+   technique="TLA+ reference model checked by TLC; trace validation of corruption probes on real backends",
+   design="4/C03"),
 }
 
 NOT_YET = "check not built yet in this round (planned in DESIGN.md section 4)"
